@@ -33,6 +33,10 @@ def fixed(add):
     add([("for", "x", arr, None, None, False, [("include", Sx("p"), []), ("text", ";")], None), ("text", "|after")], PB, "include-break")
     PC = [("p", [("text", "<"), ("if", True, ("bin", var("x"), "==", Sx("x")), [("continue",)], None), ("out", (var("x"), [])), ("text", ">")])]
     add([("for", "x", arr, None, None, False, [("include", Sx("p"), []), ("text", ";")], None), ("text", "|after")], PC, "include-continue")
+    # break / continue raised two includes deep, and after output inside the partial
+    PN = [("outer", [("text", "("), ("include", Sx("inner"), []), ("text", "never)")]), ("inner", [("out", (var("x"), [])), ("if", True, ("bin", var("x"), "==", Sx("x")), [("break",)], [("continue",)]), ("text", "never")])]
+    add([("for", "x", arr, None, None, False, [("text", "["), ("include", Sx("outer"), []), ("text", "]")], None), ("text", "|after")] + reads_all(), PN, "include-break-nested")
+    add([("for", "y", arr, None, None, False, [("for", "x", arr, None, None, False, [("include", Sx("inner"), []), ("text", ";")], None), ("text", "/")], None), ("text", "|after")], PN, "include-break-nested")
     # render: only the arguments; assignments and break/continue never reach the caller
     R1 = [("r", read("a") + read("b") + read("v") + [("assign", "a", (Sx("rA"), [])), ("assign", "v", (Sx("rV"), []))] + read("a") + read("v") + [("inc", "c")])]
     for form, args in ((None, []), (None, [("v", Sx("kv"))]), (("with", var("a"), "v"), []), (("with", Sx("lit"), "v"), [("b", I(5))]),
